@@ -13,7 +13,7 @@ import (
 )
 
 func init() {
-	register("C12", checkC12, "R12.1: every store to the parseResponseFunc / asProtocolErrorFunc fields of Client and SerialClient in the module is enumerated (type-resolved FieldAddr stores); the only writers are the constructors, and for each constructor that installs an RTU-family parser (one that can reach an RTU response parser) the values held by both fields when it returns are static functions. R12.2: both installed functions are CRC-guarded: with CRC16 uninterpreted, every return that can carry reply content (a non-nil response or a non-nil error) is reached only under little-endian(data[len-2:]) == CRC16(data[:len-2]) on the function's own parameter, and inner parsers are only called under that equality. R12.3: in do() every *ClientError cause is a constant-content error, a transport error or the recogniser's result, and the only success value is what parseResponseFunc returns, so nothing else can carry reply content to the caller. User-supplied functions (NewClient with a custom config) are outside the property. R12.4 the recogniser is applied to received[0:total], not to a single chunk. R12.5 Do hands do()'s result to parseResponseFunc unchanged (no trimming before the CRC check). R12.6 = C03 R3.4 (checksum constants / table). R12.7 wherever Do consults the recogniser outside the read loop, its argument is the whole received frame (do()'s result). R12.8 = shared-state rule from both clients' Do and CRC16 (the verdict on a reply depends on the reply alone).")
+	register("C12", checkC12, "R12.1: every store to the parseResponseFunc / asProtocolErrorFunc fields of Client and SerialClient in the module is enumerated (type-resolved FieldAddr stores); the only writers are the constructors, and for each constructor that installs an RTU-family parser (one that can reach an RTU response parser) the values held by both fields when it returns are static functions. R12.2: both installed functions are CRC-guarded: with CRC16 uninterpreted, every return that can carry reply content (a non-nil response or a non-nil error) is reached only under little-endian(data[len-2:]) == CRC16(data[:len-2]) on the function's own parameter, and inner parsers are only called under that equality. R12.3: in do() every *ClientError cause is a constant-content error, a transport error or the recogniser's result, and the only success value is what parseResponseFunc returns, so nothing else can carry reply content to the caller. User-supplied functions (NewClient with a custom config) are outside the property. R12.4 the recogniser is applied to received[0:total], not to a single chunk. R12.5 Do hands do()'s result to parseResponseFunc unchanged (no trimming before the CRC check). R12.6 = C03 R3.4 (checksum constants / table). R12.7 wherever Do consults the recogniser outside the read loop, its argument is the whole received frame (do()'s result). R12.8 = shared-state rule from both clients' Do and CRC16 (the verdict on a reply depends on the reply alone). R12.9 = C07 R7.2 chunk accounting (every byte a Read delivered is counted and received[0:total] is what gets verified).")
 }
 
 type fieldStore struct {
